@@ -16,6 +16,7 @@ pub mod c06;
 pub mod c07;
 pub mod c08;
 pub mod c12;
+pub mod c13;
 pub mod c17;
 pub mod c14;
 pub mod io;
@@ -110,6 +111,7 @@ pub fn run(prop: &str, ctx: &mut Ctx, reg: &Registry) {
         "C08" => c08::run(ctx, reg),
         "C14" => c14::run(ctx, reg),
         "C12" => c12::run(ctx, reg),
+        "C13" => c13::run(ctx, reg),
         "C17" => c17::run(ctx, reg),
         "C18" => c18::run(ctx, reg),
         _ => ctx.inconclusive(format!("unknown property {}", prop)),
